@@ -91,6 +91,41 @@ func BcastStress(n int, budget time.Duration) StressResult {
 		}
 		b.Close(nil)
 	}
+	// Close reaches every key, also when some keys were abandoned before (their receiver's context ended, the key
+	// was never freed): fresh broadcasters, because the order in which Close visits the keys varies
+	for k := 0; k < 80 && res.Violates == ""; k++ {
+		b := utils.NewBroadcaster[int]()
+		actx, acancel := context.WithCancel(context.Background())
+		nkeys := 2 + k%3
+		recvA, err := b.Receive("abandoned", actx)
+		if err != nil {
+			res.Violates = fmt.Sprintf("abandoned-key check %d: Receive failed: %v", k, err)
+			acancel()
+			break
+		}
+		adone := make(chan struct{})
+		go func() { recvA(); close(adone) }()
+		got := make(chan error, nkeys)
+		for j := 1; j < nkeys; j++ {
+			recv, err := b.Receive(fmt.Sprintf("live%d", j), context.Background())
+			if err != nil {
+				res.Violates = fmt.Sprintf("abandoned-key check %d: Receive failed: %v", k, err)
+				break
+			}
+			go func() { _, err := recv(); got <- err }()
+		}
+		time.Sleep(time.Millisecond)
+		acancel()
+		<-adone
+		b.Close(nil)
+		for j := 1; j < nkeys && res.Violates == ""; j++ {
+			select {
+			case <-got:
+			case <-time.After(2 * time.Second):
+				res.Violates = fmt.Sprintf("round %d: %d keys with a blocked receiver each, one more key abandoned earlier (its receiver's context was cancelled, the key not freed): after Close a receiver of a live key still blocks", k, nkeys-1)
+			}
+		}
+	}
 	phaseEnd := time.Now().Add(budget)
 	within := func(i int) bool { return i%64 != 0 || time.Now().Before(phaseEnd) }
 	for i := 0; i < n && res.Violates == "" && within(i); i++ {
